@@ -3,6 +3,7 @@ package mpcl
 import (
 	"fmt"
 	"math/big"
+	"strings"
 )
 
 // Semantics implemented here (sources: /repo/compiler/README.md "Types",
@@ -22,6 +23,15 @@ import (
 //     and sign-extend a signed source to a signed target;
 //   * if/else executes one branch, return leaves the function, for loops are
 //     executed iteration by iteration (the compiler unrolls them).
+
+// ErrDivZero is the text of the error Run returns when the program divides by
+// zero on the given input (no defined meaning; callers skip such inputs).
+const ErrDivZero = "division by zero"
+
+// IsDivZero tells whether err is Run's division-by-zero error.
+func IsDivZero(err error) bool {
+	return err != nil && strings.Contains(err.Error(), ErrDivZero)
+}
 
 type env struct {
 	vars   map[string]*Value
@@ -363,12 +373,12 @@ func (in *interp) binary(x *Expr, e *env) Value {
 		r.AndNot(a.Bits, b.Bits)
 	case "/":
 		if bv.Sign() == 0 {
-			panic("division by zero")
+			panic(ErrDivZero)
 		}
 		r.Quo(av, bv) // truncated division
 	case "%":
 		if bv.Sign() == 0 {
-			panic("division by zero")
+			panic(ErrDivZero)
 		}
 		// |a| mod |b| (testsuite/lang/modi.mpcl); equals the ordinary
 		// remainder for unsigned operands.
